@@ -228,10 +228,18 @@ func (propC09) Check(k *Kernel, cov *Coverage) *Violation {
 						for _, h := range rpc.Headers {
 							if strings.EqualFold(v.GetField(), h.Name) {
 								st := "valid"
+								nSame := 0
 								for _, n := range c.Op.Notes {
 									if n == "oa:"+strings.ToLower(h.Name)+"=omitted-optional" {
 										st = "omitted-optional"
 									}
+									if strings.HasPrefix(n, "oa:"+strings.ToLower(h.Name)+"=") {
+										nSame++
+									}
+								}
+								if nSame > 1 {
+									// the document lists the header twice (two spellings differing in case)
+									st = "listed-twice-case-variant"
 								}
 								return &Violation{Class: "published-headers-rejected", Signature: "C09|published-headers-rejected|" + c.Op.Server + "|" + st,
 									Detail: fmt.Sprintf("op %d %s %s headers=%v satisfy the OpenAPI parameter list of the operation (%s), yet the server answers 400 naming header %q: %s", c.Op.ID, c.Op.Raw.Verb, c.Op.Raw.Target, c.Op.Raw.Headers, strings.Join(c.Op.Notes, " "), v.GetField(), v.GetDescription())}
